@@ -31,9 +31,9 @@ type SMPOutcome struct {
 // as an authenticated peer that may be told to misbehave.
 type Party struct {
 	shortTries int
-	SMPShort string // passed to the SMP runs this party takes part in (see SMP.Short)
-	Version  uint16
-	Key      *DSAKey
+	SMPShort   string // passed to the SMP runs this party takes part in (see SMP.Short)
+	Version    uint16
+	Key        *DSAKey
 	// Advertise, when set, is the PUBKEY placed in the encrypted signature instead of Key's own.
 	Advertise []byte
 	Rnd       func(n int) []byte
@@ -59,12 +59,17 @@ type Party struct {
 
 	OurKeyID   uint32
 	TheirKeyID uint32
-	ours       map[uint32]dhPair
-	theirs     map[uint32]*big.Int
-	ctrOut     map[[2]uint32]uint64
-	ctrIn      map[[2]uint32]uint64
-	usedRecv   map[[2]uint32][]byte
-	oldMACs    []byte
+	// FirstKeyID is the serial number this party gives the D-H key it uses in the key exchange (0 means 1, as
+	// libotr does; the specification only asks for a number greater than zero)
+	FirstKeyID uint32
+	// PadFirst > 0: every record block this party sends starts with a padding record of PadFirst-1 bytes
+	PadFirst int
+	ours     map[uint32]dhPair
+	theirs   map[uint32]*big.Int
+	ctrOut   map[[2]uint32]uint64
+	ctrIn    map[[2]uint32]uint64
+	usedRecv map[[2]uint32][]byte
+	oldMACs  []byte
 	// Disclose=false keeps retired MAC keys back (some tests need silence)
 	NoDisclose bool
 
@@ -254,7 +259,7 @@ func (p *Party) onDHKey(body []byte) ([][]byte, error) {
 		}
 		p.peerDH = k.Gy
 		p.ake = DeriveAKE(DH(k.Gy, p.x))
-		b, err := BuildRevealSig(p.ake, p.r, p.gx, k.Gy, p.Key, p.advertise(), 1, p.rnd())
+		b, err := BuildRevealSig(p.ake, p.r, p.gx, k.Gy, p.Key, p.advertise(), p.firstKeyID(), p.rnd())
 		if err != nil {
 			return nil, err
 		}
@@ -286,7 +291,7 @@ func (p *Party) onReveal(body []byte) ([][]byte, error) {
 	if err != nil {
 		return nil, err
 	}
-	b, err := BuildSignature(k, p.gy, gx, p.Key, p.advertise(), 1, p.rnd())
+	b, err := BuildSignature(k, p.gy, gx, p.Key, p.advertise(), p.firstKeyID(), p.rnd())
 	if err != nil {
 		return nil, err
 	}
@@ -310,16 +315,24 @@ func (p *Party) onSig(body []byte) error {
 	return nil
 }
 
+func (p *Party) firstKeyID() uint32 {
+	if p.FirstKeyID == 0 {
+		return 1
+	}
+	return p.FirstKeyID
+}
+
 func (p *Party) established(k *AKEKeys, own dhPair, their *big.Int, op *OpenedSig, sentReveal bool) {
 	p.State = StNone
 	p.Encrypted, p.Finished = true, false
 	p.SSID = k.SSID
 	p.HighlightFirst = sentReveal
 	p.TheirLong, p.TheirLongBytes = op.Pub, op.PubBytes
-	p.ours = map[uint32]dhPair{1: own}
+	fk := p.firstKeyID()
+	p.ours = map[uint32]dhPair{fk: own}
 	nx, npub := p.exp()
-	p.ours[2] = dhPair{nx, npub}
-	p.OurKeyID = 2
+	p.ours[fk+1] = dhPair{nx, npub}
+	p.OurKeyID = fk + 1
 	p.theirs = map[uint32]*big.Int{op.KeyID: their}
 	p.TheirKeyID = op.KeyID
 	p.ctrOut, p.ctrIn, p.usedRecv = map[[2]uint32]uint64{}, map[[2]uint32]uint64{}, map[[2]uint32][]byte{}
@@ -376,7 +389,12 @@ func (p *Party) SendOpts(text []byte, o DataOpts) []byte {
 	}
 	plain := o.RawPlain
 	if plain == nil {
-		plain = PutPlain(text, o.TLVs)
+		tlvs := o.TLVs
+		if p.PadFirst > 0 && len(tlvs) > 0 {
+			// the order of records is the sender's choice: this party puts its padding record first
+			tlvs = append([]TLV{{Type: 0, Val: make([]byte, p.PadFirst-1)}}, tlvs...)
+		}
+		plain = PutPlain(text, tlvs)
 	}
 	enc := CryptData(keys.SendAES, ctr, plain)
 	st, rt := p.OurTag, p.TheirTag
